@@ -30,7 +30,7 @@ for p in props:
     })
 man = {
     "version": 1,
-    "setup_cmd": "python3 tools/py2lean.py --repo /repo --out lean/AbtemVerif/Gen; cd lean && lake build",
+    "setup_cmd": "bash tools/setup.sh",
     "hooks": {
         "guard": "ABTEM_VERIF",
         "enable": "checks export ABTEM_VERIF=1 and run the real abTEM code in-process from $VERIF_REPO (default /repo) via PYTHONPATH; no source hooks exist, tracing is done by monkeypatching inside the harness process",
